@@ -204,6 +204,35 @@ def _enum_case(ch, out):
             out.violation("shm-leak", "enumeration: after worker %s raised at %s: %s" % (tname, site, lk[0][1]),
                           sig="fault", fault_kind="exc", site=site, cfg=_cfg_str(cfg))
             return out
+    if gran == 0:
+        # the parent's own set-up fails: first / second segment cannot be created, the workers cannot be started
+        for what in (("shm", 0), ("shm", 1), ("pool",)):
+            rf = _run(fn, cfg, sched, ch, setup_fault=what, fill="payload")
+            _count(out, rf)
+            fired = [x for x in rf.fired if x["kind"] == "setup"]
+            if not fired:
+                out.stats["fault_unfired"] += 1
+                continue
+            out.stats["oracle:fails_cleanly"] += 1
+            out.stats["enumerated_fault_placements"] += 1
+            out.sample["placements"] += 1
+            site = fired[0]["site"]
+            probs = bw.liveness_problems(rf)
+            if probs:
+                out.violation("fault-hang", "enumeration %s: set-up failure at %s: the call does not raise promptly: %s"
+                              % (_cfg_str(cfg), site, probs[0][1]), sig="setup", fault_kind="setup", site=site,
+                              cfg=_cfg_str(cfg), layout=str(rf.layout), sched="canonical")
+                out.trace = _trace(rf)
+                return out
+            if rf.status == "returned":
+                out.violation("fault-swallowed", "enumeration %s: set-up failure at %s but the call returned normally"
+                              % (_cfg_str(cfg), site), sig="setup", fault_kind="setup", site=site, cfg=_cfg_str(cfg))
+                return out
+            lk = bw.leak_problems(rf)
+            if lk:
+                out.violation("shm-leak", "enumeration: after a set-up failure (%s): %s" % (site, lk[0][1]),
+                              sig="setup", fault_kind="setup", site=site, cfg=_cfg_str(cfg))
+                return out
     return out
 
 
@@ -377,7 +406,7 @@ def case(ch):
     content = bw.gen_content(ch, cfg)
     hot, line = bw.gen_yield_settings(ch)
     nvar = 1 + ch.draw("nvariants", 3)
-    fault_kind = ("none", "exc", "kill")[ch.weighted("fault_kind", [5, 5, 1])]
+    fault_kind = ("none", "exc", "kill", "setup")[ch.weighted("fault_kind", [5, 5, 1, 1])]
     other_layout = ch.chance("other_layout", 1, 3)
     img = bw.make_image(cfg, content)
     fn = bw.write_image(bw.fresh_path("c07"), cfg, img)
@@ -400,8 +429,42 @@ def _case_body(ch, out, cfg, content, hot, line, nvar, fault_kind, other_layout,
         return out
     nstripes = len(r0.layout) if r0.layout else 1
 
+    # ---- a failure of the parent's set-up (a segment cannot be created, the workers cannot be started): the call must
+    #      raise, promptly, and leave no segment behind
+    if fault_kind == "setup":
+        what = (("shm", 0), ("shm", 1), ("pool",), ("pool",))[ch.draw("setup_fault", 4)]
+        sched = bw.canonical_sched(hot, line) if ch.chance("fault_canonical", 1, 3) else bw.gen_sched(ch, hot, line)
+        rf = _run(fn, cfg, sched, ch, setup_fault=what, fill="payload")
+        _count(out, rf)
+        fired = [x for x in rf.fired if x["kind"] == "setup"]
+        out.sample["runs"].append({"run": "fault", "kind": "setup", "what": list(what),
+                                   "fired": [x["site"] for x in fired], "status": rf.status,
+                                   "exc": type(rf.exc).__name__ if rf.exc is not None else None})
+        if not fired:
+            out.stats["fault_unfired"] += 1
+            if not _basic(out, rf, cfg, "run with an armed but unreached set-up fault"):
+                return out
+        else:
+            out.stats["oracle:fails_cleanly"] += 1
+            site = fired[0]["site"]
+            probs = bw.liveness_problems(rf)
+            if probs:
+                out.violation("fault-hang", "set-up failure at %s: the call does not raise promptly: %s" % (site, probs[0][1]),
+                              sig="setup", fault_kind="setup", site=site, cfg=_cfg_str(cfg), layout=str(rf.layout),
+                              sched=sched["profile"])
+                out.trace = _trace(rf)
+                return out
+            if rf.status == "returned":
+                out.violation("fault-swallowed", "set-up failure at %s but the call returned normally" % site,
+                              sig="setup", fault_kind="setup", site=site, cfg=_cfg_str(cfg))
+                return out
+            lk = bw.leak_problems(rf)
+            if lk:
+                out.violation("shm-leak", "after a set-up failure (%s): %s" % (site, lk[0][1]),
+                              sig="setup", fault_kind="setup", site=site, cfg=_cfg_str(cfg))
+                return out
     # ---- one worker failure
-    if fault_kind != "none":
+    elif fault_kind != "none":
         holders = sorted(n for n, c in r0.worker_yields.items() if n != "main" and c > 0)
         if holders:
             tname = holders[ch.draw("fault_task", len(holders))]
